@@ -101,6 +101,46 @@ def replay_destroy(job, obl, inputs, workdir):
     return rc == 1, out
 
 
+REPLAY_RELEASE = r'''
+// Native replay for the release-once obligation: the REAL layout with a constraint vector that lists one constraint twice, not next to each
+// other; freeAssociatedObjects() must delete each constraint once.  A counting operator delete detects a second release of the same block.
+#include "libcola/cola.h"
+#include <cstdio>
+#include <cstdlib>
+#include <csignal>
+#include <new>
+static void *freed[65536]; static size_t nfreed = 0; static int doubled = 0; static bool tracking = false;
+void *operator new(size_t n) { void *p = malloc(n ? n : 1); if (!p) throw std::bad_alloc(); if (tracking) for (size_t i = 0; i < nfreed; ++i) if (freed[i] == p) freed[i] = 0; return p; }
+void operator delete(void *p) noexcept { if (!p) return; if (tracking) { for (size_t i = 0; i < nfreed; ++i) if (freed[i] == p) { doubled++; return; } if (nfreed < 65536) freed[nfreed++] = p; return; /* quarantined, not reused */ } free(p); }
+void *operator new[](size_t n) { return operator new(n); }
+void operator delete[](void *p) noexcept { operator delete(p); }
+static void onsig(int) { printf("REPRODUCED: fatal signal inside freeAssociatedObjects()\n"); fflush(stdout); _exit(1); }
+int main() {
+  using namespace cola;
+  signal(SIGSEGV, onsig); signal(SIGABRT, onsig); signal(SIGBUS, onsig);
+  vpsc::Rectangles rs; for (int i = 0; i < 3; ++i) rs.push_back(new vpsc::Rectangle(30.0 * i, 30.0 * i + 10, 0, 10));
+  std::vector<Edge> es; es.push_back(Edge(0, 1)); es.push_back(Edge(1, 2));
+  SeparationConstraint *sep = new SeparationConstraint(vpsc::XDIM, 0, 1, 20, false);
+  AlignmentConstraint *al = new AlignmentConstraint(vpsc::YDIM); al->addShape(0, 0); al->addShape(2, 0);
+  CompoundConstraints ccs; ccs.push_back(sep); ccs.push_back(al); ccs.push_back(sep);
+  ConstrainedFDLayout alg(rs, es, 40); alg.setConstraints(ccs); alg.run();
+  tracking = true;
+  alg.freeAssociatedObjects();
+  tracking = false;
+  if (doubled) { printf("REPRODUCED: %d block(s) were released twice by freeAssociatedObjects()\n", doubled); return 1; }
+  printf("not reproduced\n"); return 0;
+}
+'''
+
+
+def replay_release(job, obl, inputs, workdir):
+    libs = [build_lib(l, workdir) for l in ("libcola", "libvpsc")]
+    rc, out = native_run(REPLAY_RELEASE, workdir, "replay_release", extra=["-I", COLA], libs=libs, timeout=600)
+    if rc is None:
+        return False, out
+    return rc == 1, out
+
+
 def jobs(tier):
     js = []
     base = "#include <verif_base.h>\n"
@@ -210,6 +250,29 @@ def jobs(tier):
                   flags=["--sat-solver", "cadical"], backend="sat:cadical",
                   domain="every state of the connector: active or not, with or without each end vertex / end point, 0 to 2 checkpoint vertices",
                   expect=[r'h_destroy\.assertion']))
+    # ---------------- ConstrainedFDLayout::freeAssociatedObjects: every compound constraint the layout was given is released exactly once, also when
+    #                  the vector lists one of them several times, in any positions (bounded: up to 4 entries over 2 constraints)
+    fao = slice_func("libcola/colafd.cpp", r'^void ConstrainedFDLayout::freeAssociatedObjects\(void\)', "ConstrainedFDLayout::freeAssociatedObjects")
+    fr = fragment_between(fao, r'std::list<CompoundConstraint \*> freeList\(ccs\.begin\(\), ccs\.end\(\)\);', r'if \(clusterHierarchy\)',
+                          "freeAssociatedObjects [releasing the compound constraints]")
+    fr_cxx = ("#include <verif_base.h>\n#include <vector>\n#include <list>\n#define fprintf(...) ((void)0)   /* diagnostic output dropped */\n"
+              'extern "C" void w_release(void *p);\n'
+              "namespace cola {\nclass CompoundConstraint;\n"
+              "// stand-ins: commondefs.h's delete_object does `delete ptr`; here the release is handed to the harness, which counts it\n"
+              "struct delete_object { void operator()(CompoundConstraint *ptr) { w_release((void *)ptr); } };\n"
+              "inline void for_each(CompoundConstraint **first, CompoundConstraint **last, delete_object f) { for (; first != last; ++first) f(*first); }   // (std::for_each, de-templated for goto-cc)\n"
+              "static delete_object verif_deleter;\n"
+              "static void verif_release_ccs(std::vector<CompoundConstraint *>& ccs)\n{\n" +
+              # front-end workaround: value-initialising a struct that has a member function (`delete_object()`) crashes goto-cc; a named instance is passed instead (must-fire)
+              subst(fr, [(r'\bdelete_object\(\)', 'verif_deleter', len(re.findall(r'\bdelete_object\(\)', fr.text)))]) + "\n}\n}\n"
+              'extern "C" unsigned long w_release_all(void *a, void *b, unsigned n, unsigned pattern) {\n'
+              "  std::vector<cola::CompoundConstraint *> ccs;\n"
+              "  for (unsigned k = 0; k < n; ++k) ccs.push_back((cola::CompoundConstraint *)(((pattern >> k) & 1u) ? b : a));\n"
+              "  cola::verif_release_ccs(ccs); return ccs.size(); }\n")
+    js.append(Job("freeAssociatedObjects_releases_once", "B", spec, "h_release", cxx=fr_cxx, defines=["JOB_release"], slices=[fao, fr], stub_variant="bounded_ctor", unwind=8, replay=replay_release,
+                  flags=["--sat-solver", "cadical"], backend="sat:cadical",
+                  bound="constraint vectors of 0 to 4 entries over 2 distinct constraints, in every pattern (loops unwound 8 times with unwinding assertions); std::list (sort, unique) behind an array-backed stub",
+                  domain="every such vector", expect=[r'h_release\.assertion']))
     # ---------------- safety-class obligations of the other properties' contract jobs (counted here, owned there)
     for pid in ("C05", "C16", "C01", "C20"):
         m = _mod(pid)
@@ -238,6 +301,7 @@ ASSUMPTIONS = [
     "mostViolated: element dereferences unchecked (--no-pointer-check, DESIGN 2.9); Blocks::cleanup is a bounded stand-in (listed under 'bounded', not counted)",
     "deliberately not demanded: initialisation of ActionInfo::newPosition.x/y in constructors whose action types never read it (Point() leaves them unset by design)",
     "NOT decided (residue, most of C15): histories of API calls, ownership across router/shape/pin/connector lifetimes, leaks at teardown, termination, every function not under contract",
+    "freeAssociatedObjects_releases_once is a BOUNDED stand-in (up to 4 entries over 2 constraints): std::list with sort()/unique() is an array-backed stub, `delete` is a counting note",
     "ConnRef_destructor_purges_queue: the destructor's body with every callee behind a stand-in that forwards to the harness; `delete x` replaced by a note; it decides only that "
     "removeObjectFromQueuedActions(this) is called exactly once in every state of the connector, not what the callees do",
 ]
